@@ -8,6 +8,7 @@ static void check_case(vg::Src& s, vh::Ctx& c)
 {
     FlowOpts o;
     o.grid.max_side = c.arg > 0 ? static_cast<size_t>(c.arg) : 10;
+    o.grid.large_side = c.arg >= 16 ? 72 : 40;  // ~3% large grids
     FlowCase fc = gen_flow_case(s, o);
     ProgInfo pi;
     auto ops = gen_valid_program(s, false, &pi);
